@@ -199,6 +199,8 @@ func checkC01(p *core.Program, r *core.Report) {
 	r.Rule("R6", "path discipline: run.path is appended only by CreateStep, step.exitUUID written only by Leave (and the reader), Leave called only from the exit-picking function with the exit chosen for that node")
 	r.Rule("R8", "a session is declared completed or failed only where no run can still be active or waiting: under a nil test of the parent run, or after a loop that exits every non-exited run of the session")
 	r.Rule("R7", "terminal push exits every run; failure of a child reaches failRun(parent); an action that failed the run stops the node before any wait/route")
+	r.Rule("R10", "a category's exit belongs to its node (load-time half of `a step's exit belongs to the step's node`): baseRouter.validate, itself or through helpers it hands its exits parameter to, compares Category.ExitUUID() with the UUID() of the elements of that exits parameter, and the error return is decided by that comparison")
+	r.Rule("R9", "pushing a flow is the point of no return: Session.PushFlow is called only by the enter_flow action and the trigger base, and after the call no path of the caller reaches an exit of the run (Run.Exit, directly or through a helper such as baseAction.fail) — the engine spawns the pushed flow as a child whatever state the parent run was left in")
 	r.Assumption("the induction over histories (waiting <=> exactly one waiting run, ancestors active) is not performed; R1-R7 are its local steps")
 
 	e := resolveEngine(p, r)
@@ -566,6 +568,8 @@ func checkC01(p *core.Program, r *core.Report) {
 	// ------------------------------------------------------------------ R7
 	c01R7(p, r, e)
 	c01R8(p, r, e)
+	c01R9(p, r)
+	c01R10(p, r)
 }
 
 func blockLabel(b *ssa.BasicBlock) string {
@@ -1077,4 +1081,135 @@ func c01R8(p *core.Program, r *core.Report, e *engineFns) {
 	}
 	r.Count("terminal_session_status_stores", n)
 	r.Require("terminal_session_status_stores", n, 3)
+}
+
+// ---------------------------------------------------------------------------------------------- R9
+
+func c01R9(p *core.Program, r *core.Report) {
+	n := 0
+	for _, cs := range p.CallsToName("flows.Session.PushFlow") {
+		if p.IsTestFile(cs.Pos()) {
+			continue
+		}
+		n++
+		fn := cs.Caller
+		owner := core.FuncName(rootFn(fn))
+		okOwner := strings.HasSuffix(owner, "EnterFlowAction).Execute") || strings.Contains(owner, "flows/triggers.")
+		r.Check(okOwner, "R9", owner+"->Session.PushFlow", p.Pos(cs.Pos()), "enter_flow action / trigger initialisation", "Session.PushFlow is called from "+owner+": a flow is pushed outside the two places the engine loop expects")
+		// after the push: no exit of the run
+		after := map[*ssa.BasicBlock]bool{}
+		for b := range core.Reachable(cs.Instr.Block(), nil) {
+			after[b] = true
+		}
+		bad := ""
+		for _, ec := range core.EffectiveCalls(fn, 2) {
+			o := core.CalleeObj(ec.Inner.Common())
+			if o == nil || core.ObjName(o) != "flows.Run.Exit" {
+				continue
+			}
+			ob := ec.Outer.Block()
+			later := false
+			if ob == cs.Instr.Block() {
+				for _, in := range ob.Instrs {
+					if in == cs.Instr {
+						later = true
+					} else if in == ec.Outer && later {
+						bad = p.Pos(ec.Outer.Pos())
+					}
+				}
+				// a loop back into the same block
+				for _, sc := range ob.Succs {
+					if core.Reachable(sc, nil)[ob] {
+						bad = p.Pos(ec.Outer.Pos())
+					}
+				}
+			} else if after[ob] {
+				bad = p.Pos(ec.Outer.Pos())
+			}
+		}
+		r.Check(bad == "", "R9", owner+"/no-exit-after-push", p.Pos(cs.Pos()), "no Run.Exit is reachable after the push", "the run can be exited at "+bad+" after its flow was pushed: the engine still starts the pushed flow as a child of the exited run, and when that child ends the failure never reaches the ancestors (a run stays active in a finished session)")
+	}
+	r.Require("pushflow_call_sites", n, 2)
+}
+
+// ---------------------------------------------------------------------------------------------- R10
+
+func c01R10(p *core.Program, r *core.Report) {
+	val := p.Method("flows/routers", "baseRouter", "validate")
+	if val == nil {
+		r.Errorf("baseRouter.validate not found")
+		return
+	}
+	var exitsP *ssa.Parameter
+	for _, prm := range val.Params {
+		if core.ShortType(prm.Type()) == "[]flows.Exit" {
+			exitsP = prm
+		}
+	}
+	if exitsP == nil {
+		r.Errorf("baseRouter.validate has no []flows.Exit parameter")
+		return
+	}
+	// functions that receive the exits: validate itself and callees (same package, incl. function literals) that are
+	// passed it as an argument or capture it
+	type holder struct {
+		fn  *ssa.Function
+		val ssa.Value // the exits slice inside fn
+	}
+	holders := []holder{{val, exitsP}}
+	seen := map[*ssa.Function]bool{val: true}
+	for i := 0; i < len(holders) && i < 8; i++ {
+		h := holders[i]
+		core.EachInstr(h.fn, false, func(_ *ssa.Function, in ssa.Instruction) {
+			switch x := in.(type) {
+			case ssa.CallInstruction:
+				g := x.Common().StaticCallee()
+				if g == nil || g.Blocks == nil || seen[g] || core.FuncPkgPath(g) != core.FuncPkgPath(val) {
+					return
+				}
+				for k, a := range x.Common().Args {
+					if core.StripConv(a) == h.val && k < len(g.Params) {
+						seen[g] = true
+						holders = append(holders, holder{g, g.Params[k]})
+					}
+				}
+			case *ssa.MakeClosure:
+				g := x.Fn.(*ssa.Function)
+				for k, b := range x.Bindings {
+					if core.StripConv(b) == h.val && k < len(g.FreeVars) && !seen[g] {
+						seen[g] = true
+						holders = append(holders, holder{g, g.FreeVars[k]})
+					}
+				}
+			}
+		})
+	}
+	compared := false
+	where := ""
+	for _, h := range holders {
+		core.EachInstr(h.fn, true, func(f *ssa.Function, in ssa.Instruction) {
+			bo, ok := in.(*ssa.BinOp)
+			if !ok || (bo.Op != token.EQL && bo.Op != token.NEQ) {
+				return
+			}
+			for _, side := range []ssa.Value{bo.X, bo.Y} {
+				c, ok := core.StripConv(side).(*ssa.Call)
+				if !ok || !c.Call.IsInvoke() || c.Call.Method.Name() != "UUID" || core.ShortType(c.Call.Value.Type()) != "flows.Exit" {
+					continue
+				}
+				// the receiver is an element of the exits slice (or the parameter of a function literal handed to a
+				// slices helper over it)
+				for v := range core.BackSlice(c.Call.Value, nil) {
+					if v == h.val {
+						compared, where = true, p.Pos(bo.Pos())
+					}
+				}
+				if prm, isP := c.Call.Value.(*ssa.Parameter); isP && prm.Parent() != nil && prm.Parent().Parent() == h.fn {
+					compared, where = true, p.Pos(bo.Pos())
+				}
+			}
+		})
+	}
+	r.Check(compared, "R10", "baseRouter.validate/category-exit-among-node-exits", p.Pos(val.Pos()), "Exit.UUID() of the node's exits is compared at "+where,
+		"baseRouter.validate never compares anything with the UUID() of the exits it is given: a category may point at an exit of another node, the run then leaves by an exit that is not on its node and silently completes (the path is no longer a walk in the flow's graph)")
 }
